@@ -22,9 +22,10 @@ NestedOps ==
     \cup (IF "maintain" \in NestedKinds THEN { [op |-> "maintain", off |-> 0, type |-> 0] } ELSE {})
     \cup (IF "close" \in NestedKinds THEN { [op |-> "close", off |-> 0, type |-> 0] } ELSE {})
 
-OpRank(o) == (IF o.op = "push" THEN 0 ELSE IF o.op = "maintain" THEN 1000 ELSE 2000) + 10 * o.off + (o.type % 7)
+\* any rank breaks the symmetry between goroutines soundly (sort by it); small numbers keep TLC's 32-bit integers from overflowing
+OpRank(o) == IF o.op = "push" THEN 7 * (o.off % 4) + (o.type % 7) ELSE IF o.op = "maintain" THEN 30 ELSE 31
 RECURSIVE ProgRank(_)
-ProgRank(p) == IF Len(p) = 0 THEN 0 ELSE OpRank(Head(p)) + 3001 * ProgRank(Tail(p))
+ProgRank(p) == IF Len(p) = 0 THEN 0 ELSE OpRank(Head(p)) + 32 * ProgRank(Tail(p))
 
 RECURSIVE Feed(_, _, _, _)
 \* run the monitor over the observations appended by one step: returns [m, bad]
